@@ -66,6 +66,9 @@ PB(S, o)  == IF o = 0 THEN S.cfg.B ELSE SOb(S, o).B
 PPar(S, o) == IF o = 0 THEN S.cfg.par ELSE SOb(S, o).par
 MaxAlloc(r, o) == IF o = 0 THEN 1048576 ELSE IF r.rcfg.max_cache < 0 THEN 10485760 ELSE r.rcfg.max_cache
 
+\* deliberately broken variants of the mechanism (only MC_Receiver sets rcfg.variant; vacuity guard of the monitors)
+Var(r) == IF "variant" \in DOMAIN r.rcfg THEN r.rcfg.variant ELSE "ok"
+
 -----------------------------------------------------------------------------
 (* callbacks *)
 Emit(r, c) == [r EXCEPT !.cb = Append(@, c)]
@@ -74,8 +77,9 @@ Emit(r, c) == [r EXCEPT !.cb = Append(@, c)]
 \* No-Code: all k source symbols.  Reed-Solomon: any k distinct symbols.  Raptor / RaptorQ: all source symbols decode for
 \* sure, fewer than k symbols never do; in between (k or more symbols, some of them repair symbols) the linear system of
 \* the code is solvable or not: the oracle fd of the call decides (Trace_Receiver tries both values)
-Decodable(sc, k, par, syms, fd) ==
-  IF IsRSch(sc) THEN Cardinality(syms \cap 0..(k + par - 1)) >= k
+Decodable(sc, k, par, syms, fd, variant) ==
+  IF IsRSch(sc) /\ variant = "rs-needs-all-source-symbols" THEN 0..(k - 1) \subseteq syms
+  ELSE IF IsRSch(sc) THEN Cardinality(syms \cap 0..(k + par - 1)) >= k
   ELSE IF 0..(k - 1) \subseteq syms THEN TRUE
   ELSE IF sc \in {1, 6} /\ Cardinality(syms) >= k THEN fd
   ELSE FALSE
@@ -84,7 +88,9 @@ Decodable(sc, k, par, syms, fd) ==
 (* ObjectReceiver; operators take and return <<r, ob>> where ob is the object under work *)
 
 Complete(r, ob) ==
-  << IF ob.w > 0 THEN Emit(r, [k |-> "complete", w |-> ob.w]) ELSE r,      \* w = -2: the FDT's internal writer
+  << IF ob.w > 0 THEN LET c == Emit(r, [k |-> "complete", w |-> ob.w, tot |-> ob.tl - ob.left]) IN      \* w = -2: the FDT's internal writer
+                      IF Var(r) = "error-after-complete" THEN Emit(c, [k |-> "error", w |-> ob.w]) ELSE c
+     ELSE r,
      [ob EXCEPT !.st = "C", !.ws = IF ob.w # 0 THEN "closed" ELSE @, !.blocks = <<>>, !.nslots = 0, !.cache = <<>>, !.csize = 0] >>
 Error(r, ob, interrupted) ==
   << IF ob.w > 0 THEN Emit(r, [k |-> IF interrupted THEN "interrupted" ELSE "error", w |-> ob.w]) ELSE r,
@@ -127,15 +133,15 @@ Flush(S, r, o, ob, sbn, fuel) ==
        LET bytes == Min2(ob.left, BlockBytes(ob.tl, PE(S, o), PB(S, o), sbn))
            nw == ob.nwrite + 1
            fails == o # 0 /\ ob.wfail = nw
-           r1 == IF o = 0 THEN r ELSE Emit(r, [k |-> "write", w |-> ob.w, len |-> bytes, res |-> IF fails THEN "err" ELSE "ok"])
-       IN  IF fails THEN <<r1, [ob EXCEPT !.nwrite = nw], FALSE>>
+           r1 == IF o = 0 THEN r ELSE Emit(r, [k |-> "write", w |-> ob.w, len |-> bytes, tot |-> ob.tl - ob.left + bytes, res |-> IF fails THEN "err" ELSE "ok"])
+       IN  IF fails /\ Var(r) # "failed-write-ignored" THEN <<r1, [ob EXCEPT !.nwrite = nw], FALSE>>
            ELSE
            LET left1 == ob.left - bytes
                ob1 == [ob EXCEPT !.nwrite = nw, !.left = left1, !.bwsbn = sbn + 1, !.abytes = @ - blk.size, !.alloc = @ - 1,
                                  !.boff = IF sbn = ob.boff THEN @ + 1 ELSE @,
                                  !.nslots = IF sbn = ob.boff THEN @ - 1 ELSE @,
                                  !.blocks = IF sbn = ob.boff THEN [b \in DOMAIN @ \ {sbn} |-> @[b]] ELSE [@ EXCEPT ![sbn].size = 0]]
-           IN  IF left1 = 0 THEN
+           IN  IF left1 = 0 \/ (Var(r) = "complete-one-symbol-early" /\ left1 <= PE(S, o)) THEN
                   \* all bytes written: MD5 (only intact traffic is modelled: it matches) -> complete
                   LET c == Complete(r1, ob1) IN <<c[1], c[2], TRUE>>
                ELSE Flush(S, r1, o, ob1, sbn + 1, fuel - 1)
@@ -164,7 +170,7 @@ ToBlock(S, r, o, ob, p) ==
   IN  IF tooBig \/ badCodec THEN <<r, [ob1 EXCEPT !.st = "E"], FALSE>>
       ELSE
       LET syms == blk.syms \cup {p.esi}
-          done == Decodable(Sch(S, o), k, PPar(S, o), syms, r.fd)
+          done == Decodable(Sch(S, o), k, PPar(S, o), syms, r.fd, Var(r))
           ob2 == [ob1 EXCEPT !.blocks[p.sbn] = [syms |-> syms, done |-> done, init |-> TRUE, size |-> blen],
                              !.alloc = IF blk.init THEN @ ELSE @ + 1, !.abytes = IF blk.init THEN @ ELSE @ + blen]
       IN  IF done THEN Flush(S, r, o, ob2, p.sbn, ob2.nslots + 2) ELSE <<r, ob2, TRUE>>
@@ -245,7 +251,7 @@ CheckState2(S, r, o) ==
 
 \* estimated sender time and expiry of an instance
 ServerTime(r, id, now) == IF id \in DOMAIN r.foff THEN now - r.foff[id] ELSE now
-IsExpiredNow(S, r, id, now) == r.rcfg.expiry /\ ServerTime(r, id, now) > SFdt(S, id).exp
+IsExpiredNow(S, r, id, now) == r.rcfg.expiry /\ Var(r) # "expiry-ignored" /\ ServerTime(r, id, now) > SFdt(S, id).exp
 UpdExpired(S, r, id, now) == IF ~r.fexp[id] /\ IsExpiredNow(S, r, id, now) THEN [r EXCEPT !.fexp[id] = TRUE] ELSE r
 
 \* create_obj: attach to the first unexpired current instance (newest first) listing the object
@@ -260,7 +266,7 @@ TryAttach(S, r, o, ob, ids, now) ==
 
 PushObj(S, r, i, now) ==
   LET p == S.pkts[i] o == p.o first == p.sbn = 0 /\ p.esi = 0 IN
-  IF o \in DOMAIN r.completed /\ (r.rcfg.once \/ ~first) THEN r
+  IF o \in DOMAIN r.completed /\ ((r.rcfg.once /\ Var(r) # "once-ignored") \/ ~first) THEN r
   ELSE
   LET r0 == IF o \in DOMAIN r.completed THEN [r EXCEPT !.completed = [x \in DOMAIN @ \ {o} |-> @[x]]] ELSE r IN
   IF o \in r0.errors /\ ~first THEN r0
@@ -326,7 +332,8 @@ RECURSIVE DropObjs(_, _)
 DropObjs(r, os) ==
   IF os = <<>> THEN [r EXCEPT !.objects = <<>>]
   ELSE LET ob == r.objects[Head(os)] IN
-       DropObjs(IF ob.w > 0 /\ ob.ws \in {"idle", "opened"} THEN Emit(r, [k |-> "error", w |-> ob.w]) ELSE r, Tail(os))
+       DropObjs(IF ob.w > 0 /\ ob.ws \in {"idle", "opened"} /\ Var(r) # "no-terminal-call-at-drop"
+                THEN Emit(r, [k |-> "error", w |-> ob.w]) ELSE r, Tail(os))
 DropAll(r) == DropObjs(r, SetToSeq(DOMAIN r.objects))
 
 \* MultiReceiver::push for the session's endpoint
